@@ -18,7 +18,7 @@
 (*                       completeness assertion is equivalent to           *)
 (*                       acyclicity)                                       *)
 (***************************************************************************)
-EXTENDS Deps, TLC
+EXTENDS Deps
 
 CONSTANTS NN,        \* number of fields
           SelfLoops  \* TRUE: all digraphs;  FALSE: digraphs without self edges
